@@ -32,6 +32,7 @@ type SchemaNode struct {
 	UniqueItems bool            // some array alternative has uniqueItems
 	Props       map[string]bool // named properties of the object alternatives
 	Required    map[string]bool // members some object alternative requires
+	Default     any             // the schema's "default" for this attribute, when it gives one
 	Pattern     bool            // has patternProperties / additionalProperties schema -> ".*" child
 	Open        bool            // additionalProperties: true or absent on an object alternative
 	Extensions  bool            // "^x-" pattern allowed
@@ -136,6 +137,9 @@ func (s *Schema) walk(n map[string]any, path string, refStack []string) error {
 		}
 	}
 	node := s.node(path)
+	if dv, has := n["default"]; has {
+		node.Default = dv
+	}
 	if d, ok := n["deprecated"].(bool); ok && d {
 		node.Deprecated = true
 	}
